@@ -4,8 +4,8 @@
 P = "func_adl_xAOD.common."
 
 # ---------------------------------------------------------------- value records (dataclasses: == is field-wise)
-Line = TAbs("Line")      # a script / code line only ever compared for equality
-Name = TAbs("Name")      # a block name only ever compared for equality / used as dict key
+Line = Str
+Name = Str
 
 CPPParsedTypeInfo = record(P + "cpp_types.CPPParsedTypeInfo",
                            TRec("CPPParsedTypeInfo", [("name", Str), ("pointer_depth", Int), ("is_const", Bool)]))
@@ -127,3 +127,30 @@ glob(P + "cpp_functions.functions_to_replace", TDict(Str, CPPFunction))
 field("_lines_of_query_code", TList(Str))
 field("_indent_level", Int)
 EMITTER = RefOf(P + "executor._cpp_source_emitter")
+
+# ---------------------------------------------------------------- metadata (common/meta_data.py)
+CPPCodeSpecification = record(P + "cpp_ast.CPPCodeSpecification",
+                              TRec("CPPCodeSpecification", [("name", Str), ("include_files", TList(Str)), ("arguments", TList(Str)), ("code", TList(Str)),
+                                                            ("result", Str), ("cpp_return_type", CPPParsedTypeInfo), ("cpp_return_is_collection", Bool),
+                                                            ("method_object", TOpt(Str)), ("instance_object", TOpt(Str))]))
+EventCollectionSpecification = record(P + "event_collections.EventCollectionSpecification",
+                                      TRec("EventCollectionSpecification", [("backend_name", Str), ("name", Str), ("include_files", TList(Str)),
+                                                                            ("container_type", RefOf(T)), ("libraries", TList(Str))]))
+DockerImageSpecification = record(P + "local_dataset.DockerImageSpecification", TRec("DockerImageSpecification", [("image", Str)]))
+# a metadata-derived specification is an instance of one of these dataclasses
+Spec = TUnionRec("Spec", {P + "meta_data.InjectCodeBlock": InjectCodeBlock, P + "meta_data.JobScriptSpecification": JobScriptSpecification,
+                          P + "cpp_ast.CPPCodeSpecification": CPPCodeSpecification,
+                          P + "event_collections.EventCollectionSpecification": EventCollectionSpecification,
+                          P + "local_dataset.DockerImageSpecification": DockerImageSpecification})
+# one metadata dictionary as func_adl delivers it: string keys from the documented vocabulary (anything else = "other key")
+MD = TKDict("MD", dict(
+    metadata_type=Str,
+    type_string=Str, method_name=Str, return_type=Str, tree_type=Str, return_type_element=Str, return_type_collection=Str, deref_count=PyU,
+    name=Str, body_includes=TList(Str), header_includes=TList(Str), private_members=TList(Str), instance_initialization=TList(Str),
+    ctor_lines=TList(Str), initialize_lines=TList(Str), link_libraries=TList(Str),
+    script=TList(Str), depends_on=TList(Str),
+    include_files=TList(Str), arguments=TList(Str), code=TList(Str), result_name=Str, return_is_collection=Bool,
+    method_object=Str, instance_object=Str,
+    container_type=Str, element_type=Str, contains_collection=Bool, element_pointer=Bool,
+    namespace=Str, values=TList(Str), image=Str))
+glob(P + "cpp_types.g_toplevel_ns", TDict(Str, Ref))
